@@ -106,6 +106,28 @@ theorem processCancelRej_cases (o : Order) (r : Report) :
       · rename_i s _; exact Or.inr ⟨_, hx, Or.inr ⟨s, rfl⟩⟩
       · exact Or.inr ⟨_, hx, Or.inl rfl⟩
 
+/-- a cancel reject keeps the status or sets the one the table allowed -/
+theorem processCancelRej_status (o : Order) (r : Report) :
+    (processCancelRej o r).1.status = o.status ∨
+    ∃ st, changeStatus spec o.status "9" omitted st false = .to (processCancelRej o r).1.status := by
+  unfold processCancelRej
+  split
+  · exact Or.inl rfl
+  · split
+    · exact Or.inl rfl
+    · rename_i st _
+      have hk : (revertId (if st = "8" then { o with leavesQty := 0 } else o)).status = o.status := by
+        unfold revertId; repeat' split
+        all_goals rfl
+      split
+      · exact Or.inl rfl
+      · rename_i s hs
+        unfold setStatus
+        split
+        · exact Or.inr ⟨st, hs⟩
+        · exact Or.inl hk
+      · exact Or.inl hk
+
 theorem processCancelRej_cnt (o : Order) (r : Report) :
     (processCancelRej o r).1.clordCnt = o.clordCnt := by
   rcases processCancelRej_cases o r with h | ⟨x, hx, h | ⟨s, h⟩⟩
